@@ -593,12 +593,14 @@ def main():
     bounded_runs = []
     bounded_list = list(cfg.get('bounded', []))
     seeds = [seed]
+    # besides the proof, every replay oracle of the property is run as a supplementary bounded exploration of the real
+    # code (never counted as discharged): one seed in the quick tier, twelve in the thorough tier.  The proof is relative
+    # to the specification of callees; the oracles compare with what the callees actually do (seed C13-4: a function term
+    # on the right behaved like its value according to the SPECIFICATION of unify while the changed unify did not)
+    for oname in sorted(set(o.split(':')[0] if False else o for o in cfg.get('oracles', {}).values())):
+        if oname not in [b[0] for b in bounded_list]:
+            bounded_list.append((oname, 'supplementary exploration of the real code'))
     if tier == 'thorough':
-        # thorough tier: besides the proof, every replay oracle of the property is run as a supplementary
-        # bounded exploration of the real code, with several seeds (never counted as discharged)
-        for oname in sorted(set(cfg.get('oracles', {}).values())):
-            if oname not in [b[0] for b in bounded_list]:
-                bounded_list.append((oname, 'supplementary exploration of the real code (thorough tier)'))
         seeds = [seed + k for k in range(12)]
     for oname, what in [(o, w) for (o, w) in bounded_list for _ in [0]]:
         binp, err = build_replay(a.repo)
